@@ -1,4 +1,11 @@
-use std::{cmp::Ordering, fmt::Display, hash::Hash, num::TryFromIntError, str::FromStr};
+use std::{
+    cmp::Ordering,
+    collections::hash_map::DefaultHasher,
+    fmt::Display,
+    hash::{Hash, Hasher},
+    num::TryFromIntError,
+    str::FromStr,
+};
 
 use indexmap::IndexMap;
 use thiserror::Error;
@@ -58,7 +65,7 @@ pub enum NumberValue {
 }
 
 impl Hash for JsonValue {
-    fn hash<H: std::hash::Hasher>(&self, state: &mut H) {
+    fn hash<H: Hasher>(&self, state: &mut H) {
         match self {
             JsonValue::Null => state.write_i8(1),
             JsonValue::Number(NumberValue::Float(f)) => {
@@ -83,10 +90,17 @@ impl Hash for JsonValue {
             }
             JsonValue::Object(o) => {
                 state.write_i8(7);
+                // Objects are equal whatever the order of their members is, so the hash
+                // must not depend on that order (equal values must have equal hashes).
+                let mut members: u64 = 0;
                 for (key, value) in o {
-                    key.hash(state);
-                    value.hash(state);
+                    let mut member = DefaultHasher::new();
+                    key.hash(&mut member);
+                    value.hash(&mut member);
+                    members = members.wrapping_add(member.finish());
                 }
+                state.write_usize(o.len());
+                state.write_u64(members);
             }
             JsonValue::Boolean(true) => {
                 state.write_i8(8);
